@@ -1,4 +1,4 @@
-_FILES = ["kv/c14_model_test.go", "kv/c14_lin_test.go", "kv/c14_fault_test.go", "kv/c14_fault2_test.go"]
+_FILES = ["kv/c14_model_test.go", "kv/c14_lin_test.go", "kv/c14_fault_test.go", "kv/c14_fault2_test.go", "kv/c14_fault3_test.go"]
 
 CHECK = {
     "level": "exploration",
@@ -28,5 +28,9 @@ CHECK = {
              quick={"checks": 300, "shards": 1, "cap": 600},
              thorough={"checks": 2000, "shards": 16, "cap": 2400},
              floors={"failed-mutation": {"nontrivial": 0.2}}),
+        unit("failedconfig", "kv", _FILES, "^TestVerif_C14_FailedConfig$",
+             quick={"checks": 250, "shards": 1, "cap": 600},
+             thorough={"checks": 1500, "shards": 16, "cap": 2400},
+             floors={"failed-config": {"nontrivial": 0.2}}),
     ],
 }
